@@ -556,3 +556,102 @@ Definition C09_full : Prop :=
       load_views T LATEST defref m M version (map N.of_nat (seq 0 n)) w0 = Val (os, w) /\
       Forall (fun o => exists f, o = OK f) os /\
       exists h, abs_model w m = Some h /\ hperm h (expected None M).
+
+(* ====================================================================== every file, projected out of the merged model *)
+(* the per-file filter of serialize (Serialize.passes: local membership empty or contains the file), on pure trees;
+   memberships are erased so that the result can be compared with the view of the file *)
+Fixpoint hproj (f : N) (h : htree) {struct h} : htree :=
+  match h with
+  | HNode n t a c cm _ =>
+    HNode n t a
+      ((fix go (l : list (htree + cdata)) : list (htree + cdata) :=
+          match l with
+          | [] => []
+          | inl k :: r => if is_empty (h_local k) || set_mem f (h_local k) then inl (hproj f k) :: go r else go r
+          | inr d :: r => inr d :: go r
+          end) c)
+      cm []
+  end.
+
+Fixpoint hproj_items (f : N) (l : list (htree + cdata)) : list (htree + cdata) :=
+  match l with
+  | [] => []
+  | inl k :: r => if is_empty (h_local k) || set_mem f (h_local k) then inl (hproj f k) :: hproj_items f r else hproj_items f r
+  | inr d :: r => inr d :: hproj_items f r
+  end.
+
+Lemma hproj_unfold f n t a c cm loc : hproj f (HNode n t a c cm loc) = HNode n t a (hproj_items f c) cm [].
+Proof.
+  cbn [hproj]. f_equal. induction c as [|[k|d] r IH]; cbn [hproj_items]; [reflexivity| |].
+  - destruct (is_empty (h_local k) || set_mem f (h_local k)); rewrite IH; reflexivity.
+  - rewrite IH. reflexivity.
+Qed.
+
+Lemma hproj_items_perm f l l' : Permutation l l' -> Permutation (hproj_items f l) (hproj_items f l').
+Proof.
+  induction 1 as [|x l l' Hp IH|x y l|l l' l'' Hp1 IH1 Hp2 IH2].
+  - constructor.
+  - destruct x as [k|d]; cbn [hproj_items]; [destruct (is_empty (h_local k) || set_mem f (h_local k))|]; auto.
+  - destruct x as [k1|d1], y as [k2|d2]; cbn [hproj_items];
+      repeat match goal with |- context [if ?b then _ else _] => destruct b end; auto using Permutation_refl, perm_swap.
+  - eapply perm_trans; eauto.
+Qed.
+
+Section Project.
+Variable T : tables.
+Variables defref v : N.
+
+(* a loaded file f that contains the element: the element passes the filter exactly when f contains the sub-element *)
+Lemma passes_norm f F S files_c :
+  In f F -> In f S -> incl (inF F files_c) S -> inF F files_c <> [] ->
+  is_empty (norm (Some S) (inF F files_c)) || set_mem f (norm (Some S) (inF F files_c)) = set_mem f files_c.
+Proof.
+  intros HfF HfS Hincl Hne. unfold norm. destruct (bytes_eqb S (inF F files_c)) eqn:E.
+  - apply bytes_eqb_spec in E. cbn [is_empty orb]. symmetry. apply set_mem_in.
+    rewrite E in HfS. apply inF_in in HfS. tauto.
+  - destruct (inF F files_c) as [|x l] eqn:El; [congruence|]. cbn [is_empty orb]. rewrite <- El.
+    destruct (set_mem f files_c) eqn:Em.
+    + apply set_mem_in. apply inF_in. apply set_mem_in in Em. auto.
+    + destruct (set_mem f (inF F files_c)) eqn:E2; [|reflexivity]. apply set_mem_in, inF_in in E2 as [E2 _].
+      apply set_mem_in in E2. congruence.
+Qed.
+
+Theorem Rep_project n : forall t, (depth t <= n)%nat -> Good T defref v t -> forall F inh a f,
+  In f F -> In f (mfiles t) -> Rep T F inh t a -> hperm (hproj f a) (pview f t).
+Proof.
+  induction n as [|n IH]; intros [name ty attrs content comment files] Hd HG F inh a f HfF Hf HR; rewrite depth_unfold in Hd; [lia|].
+  apply Good_unfold in HG as (Hs & Hne & (Hsub & _) & Hkids). cbn [mfiles m_fileset] in Hf.
+  apply Rep_unfold in HR as (HS & hc & hc' & -> & HI & HP & _).
+  rewrite hproj_unfold, pview_unfold.
+  assert (HfS : In f (inF F files)) by (apply inF_in; auto).
+  assert (HF : Forall2 hperm_item (hproj_items f hc') (pview_items f content)).
+  { assert (Hall : forall c, In c (kids content) -> (depth c <= n)%nat /\ Good T defref v c /\ incl (mfiles c) files).
+    { intros c Hin. split; [|split; [apply Hkids; exact Hin|apply Hsub; exact Hin]].
+      apply kids_in in Hin. apply depth_items_in in Hin. lia. }
+    clear Hd Hkids Hsub HP. revert hc' HI. induction content as [|[c|d] r IHr]; intros hc' HI; cbn [RepItems pview_items] in *.
+    - subst. constructor.
+    - destruct (Hall c) as (Hdc & HGc & Hic); [left; reflexivity|].
+      assert (Hr : forall c0, In c0 (kids r) -> (depth c0 <= n)%nat /\ Good T defref v c0 /\ incl (mfiles c0) files)
+        by (intros c0 H0; apply Hall; right; exact H0).
+      destruct (present F c) eqn:Ep.
+      + destruct HI as (h0 & hr & -> & HRc & HIr). cbn [hproj_items].
+        destruct (Rep_shape T F (Some (inF F files)) c h0 HRc) as (_ & _ & Hloc & Hnec).
+        rewrite Hloc, (passes_norm f F (inF F files) (mfiles c) HfF HfS); [| |exact Hnec].
+        2:{ intros x Hx. apply inF_in in Hx as [Hx HxF]. apply inF_in. split; [apply Hic; exact Hx|exact HxF]. }
+        destruct (set_mem f (mfiles c)) eqn:Em.
+        * constructor; [|apply IHr; auto]. constructor.
+          apply (IH c Hdc HGc F (Some (inF F files)) h0 f HfF); [apply set_mem_in; exact Em|exact HRc].
+        * apply IHr; auto.
+      + (* not in any loaded file: in particular not in f *)
+        assert (Em : set_mem f (mfiles c) = false).
+        { destruct (set_mem f (mfiles c)) eqn:Em; [|reflexivity]. exfalso. apply set_mem_in in Em.
+          unfold present in Ep. apply negb_false_iff, is_empty_nil in Ep.
+          assert (Hin : In f (inF F (mfiles c))) by (apply inF_in; auto). rewrite Ep in Hin. destruct Hin. }
+        rewrite Em. apply IHr; auto.
+    - destruct HI as (hr & -> & HIr). cbn [hproj_items]. constructor; [constructor|]. apply IHr; auto. }
+  destruct (Forall2_perm_l hperm_item (hproj_items f hc') (hproj_items f hc)
+              (Permutation_sym (hproj_items_perm f hc hc' HP)) _ HF) as (c2' & P2 & F2).
+  apply (HPerm name ty (hattrs attrs) (hproj_items f hc) (pview_items f content) c2' comment [] P2 F2).
+Qed.
+
+End Project.
